@@ -1052,14 +1052,6 @@ func (client *client) publishHandler(pub *packets.Publish) *codes.Error {
 		}
 	}
 
-	if pub.Retain {
-		if len(pub.Payload) == 0 {
-			srv.retainedDB.Remove(msg.Topic)
-		} else {
-			srv.retainedDB.AddOrReplace(msg.Copy())
-		}
-	}
-
 	var err error
 	var topicMatched bool
 	if !dup {
@@ -1075,6 +1067,14 @@ func (client *client) publishHandler(pub *packets.Publish) *codes.Error {
 			opts = req.IterationOptions
 		}
 		if msg != nil && err == nil {
+			// update the retained store with what OnMsgArrived decided, and only if it accepted the message
+			if msg.Retained {
+				if len(msg.Payload) == 0 {
+					srv.retainedDB.Remove(msg.Topic)
+				} else {
+					srv.retainedDB.AddOrReplace(msg.Copy())
+				}
+			}
 			topicMatched = client.deliverMessage(client.opts.ClientID, msg, opts)
 		}
 	}
